@@ -8,7 +8,8 @@ MODULE_LABEL = {
     "socket": "dangerous", "shutil": "dangerous", "urllib": "dangerous", "urllib.request": "dangerous",
     "torch.hub": "dangerous", "dill": "dangerous", "code": "dangerous", "os.path": "dangerous",
     "dill._dill": "dangerous", "urllib.parse": "dangerous",
-    "collections": "benign", "io": "benign", "_io": "benign", "_codecs": "benign", "copyreg": "benign",
+    "collections": "benign", "copy": "benign", "importlib": "benign", "json": "benign", "re": "benign", "typing": "benign",
+    "shlex": "benign", "gzip": "benign", "io": "benign", "_io": "benign", "_codecs": "benign", "copyreg": "benign",
     "operator": "benign", "functools": "benign", "datetime": "benign", "pickle": "benign", "runpy": "benign",
     "vp_sink": "nonstd", "numpy": "nonstd", "torch.storage": "nonstd", "torch": "nonstd", "vp_objs": "nonstd",
     "numpy.testing._private.utils": "nonstd", "m": "nonstd", "transformers": "nonstd",
@@ -66,3 +67,8 @@ def floor_of(world):
                 f = max(f, 3)
                 why.append("calls a computed callee (>=LIKELY_UNSAFE)")
     return f, why
+
+
+# real standard-library modules that export the same attribute name as a vocabulary entry (for shadowing programs)
+SHADOW = {"__import__": "importlib", "open": "gzip", "copy": "copy", "load": "json", "loads": "json", "join": "shlex",
+          "compile": "re", "OrderedDict": "typing"}
